@@ -116,6 +116,7 @@ def prof_delay(v):
     s2, d1, d2, da, db, x0, x1, x2 = v
     sc = prof_two((s2, d1, d2, da, db, PIN.get('g2', 1), PIN.get('max_ingest', 2), PIN.get('vol', 5)))
     sc['delays'] = [x0, x1, x2]
+    sc['obs'][1]['start'] += PIN.get('s2_offset', 0)      # a second observation that starts after the first workflow is over
     return sc
 
 
